@@ -12,6 +12,7 @@ import (
 	"github.com/junegunn/fzf/src/algo"
 	"github.com/junegunn/fzf/src/util"
 	"pgregory.net/rapid"
+	"verif.local/oracle"
 	"verif.local/vstat"
 )
 
@@ -301,4 +302,135 @@ func runCancellationCase(t *testing.T, lines []string, c, parts, k int, q1, q2 s
 	}
 	nt := inj && k < c
 	vstat.Case("C13/cancellation-points", fmt.Sprint(len(lines), parts, k, q1, q2), nt, fmt.Sprintf("chunks=%d", c), fmt.Sprintf("partitions=%d", parts))
+}
+
+// (d) the real loader (Reader.feed over scripted reads that cut records at
+// arbitrary places) fills the chunk list while snapshots are taken and
+// searched: what a snapshot held when it was taken is what it holds after the
+// stream has ended, and it is the true content of the records.
+func TestVerifC13_FeedWhileSearching(t *testing.T) {
+	rapid.Check(t, func(t *rapid.T) {
+		algo.Init("default")
+		sortCriteria = []criterion{byScore, byLength}
+		stream, lens := genStream(t, '\n', false)
+		// make the stream longer: several copies with running numbers so that chunks fill up
+		copies := rapid.SampledFrom([]int{1, 5, 40}).Draw(t, "copies")
+		var big []byte
+		for c := 0; c < copies; c++ {
+			big = append(big, stream...)
+			if len(stream) > 0 && stream[len(stream)-1] != '\n' {
+				big = append(big, '\n')
+			}
+		}
+		cuts, zeros := genCuts(t, big, '\n')
+		want := oracle.SplitRecords(big, '\n')
+		cache := NewChunkCache()
+		idx := int32(0)
+		cl := NewChunkList(cache, func(item *Item, data []byte) bool {
+			item.text = util.ToChars(data)
+			item.text.Index = idx
+			idx++
+			return true
+		})
+		r := NewReader(func(b []byte) bool { return cl.Push(b) }, util.NewEventBox(), util.NewExecutor(""), false, false)
+		gate := make(chan struct{}, 64)
+		src := &gatedReader{scriptedReader: scriptedReader{data: big, cuts: cuts, zeros: zeros}, gate: gate, open: make(chan struct{})}
+		var wg sync.WaitGroup
+		wg.Add(1)
+		go func() {
+			defer wg.Done()
+			r.feed(src)
+		}()
+		type snap struct {
+			chunks []*Chunk
+			texts  []string
+		}
+		var snaps []snap
+		query := rapid.SampledFrom([]string{"a", "ab", "'b", "0", ""}).Draw(t, "query")
+		m := NewMatcher(cache, nil, true, false, util.NewEventBox(), revision{})
+		nsnap := rapid.IntRange(1, 6).Draw(t, "snapshots")
+		straddled := false
+		for s := 0; s < nsnap; s++ {
+			// let the loader do a few more reads, then look
+			for k := rapid.IntRange(0, 6).Draw(t, "reads"); k > 0; k-- {
+				select {
+				case gate <- struct{}{}:
+				default:
+				}
+			}
+			time.Sleep(time.Duration(rapid.IntRange(0, 200).Draw(t, "us")) * time.Microsecond)
+			chunks, count, _ := cl.Snapshot(0)
+			rec := snap{chunks: chunks}
+			for _, ch := range chunks {
+				for i := 0; i < ch.count; i++ {
+					rec.texts = append(rec.texts, ch.items[i].text.ToString())
+				}
+			}
+			if len(rec.texts) != count {
+				t.Fatalf("snapshot %d reports %d items but holds %d", s, count, len(rec.texts))
+			}
+			for i, txt := range rec.texts {
+				// (non-ASCII records are held as decoded characters: invalid sequences read back as U+FFFD)
+				if i >= len(want) || txt != string([]rune(string(want[i]))) {
+					t.Fatalf("snapshot %d: item %d is %q, the record is %q (record lengths %v x%d, %d cuts)", s, i, txt, recordOrNone(want, i), lens, copies, len(cuts))
+				}
+			}
+			if count > 0 && count < len(want) {
+				straddled = true
+			}
+			pat := BuildPattern(cache, map[string]*Pattern{}, true, algo.FuzzyMatchV2, true, CaseSmart, true, true, false, true, nil, Delimiter{}, revision{}, []rune(query), nil)
+			merger, _ := m.scan(MatchRequest{chunks: chunks, pattern: pat, sort: true})
+			n := 0
+			for _, txt := range rec.texts {
+				fresh := BuildPattern(NewChunkCache(), map[string]*Pattern{}, true, algo.FuzzyMatchV2, true, CaseSmart, true, true, false, false, nil, Delimiter{}, revision{}, []rune(query), nil)
+				if res, _, _ := fresh.MatchItem(vItem(txt, 0), false, nil); res != nil {
+					n++
+				}
+			}
+			if merger.Length() != n {
+				t.Fatalf("snapshot %d (%d items): the search for %q finds %d items, a sequential filter of what the snapshot held finds %d", s, count, query, merger.Length(), n)
+			}
+			snaps = append(snaps, rec)
+		}
+		close(src.open)
+		wg.Wait()
+		for s, rec := range snaps {
+			k := 0
+			for _, ch := range rec.chunks {
+				for i := 0; i < ch.count; i++ {
+					if got := ch.items[i].text.ToString(); got != rec.texts[k] {
+						t.Fatalf("snapshot %d: item %d changed from %q to %q after the snapshot was taken (record lengths %v x%d, cuts %v)", s, k, rec.texts[k], got, lens, copies, headInts(cuts))
+					}
+					k++
+				}
+			}
+		}
+		vstat.Case("C13/feed-while-searching", fmt.Sprintf("%d|%v|%d|%v|%s", len(big), lens, copies, headInts(cuts), query), straddled && len(cuts) > 0, fmt.Sprintf("copies=%d", copies))
+	})
+}
+
+func recordOrNone(recs [][]byte, i int) string {
+	if i < len(recs) {
+		return string(recs[i])
+	}
+	return "<none>"
+}
+
+// gatedReader delivers a read only when the test has opened the gate for it
+// (or after the gate was opened for good), so that snapshots fall between reads.
+type gatedReader struct {
+	scriptedReader
+	gate chan struct{}
+	open chan struct{}
+	once sync.Once
+}
+
+func (g *gatedReader) Read(p []byte) (int, error) {
+	g.once.Do(func() {})
+	select {
+	case <-g.gate:
+	case <-g.open:
+	case <-time.After(2 * time.Millisecond):
+	}
+	return g.scriptedReader.Read(p)
 }
